@@ -134,6 +134,29 @@ def extract(tree):
                 raise ExtractError("DIVZERO_NEXT_%s not recognised: %s" % (nm, t))
     g["loopZero"] = lz
 
+    # ---- boot.janet: polymorphic compare and the chains built on it ---------------------------------------
+    boot = csrc.read(tree, "src/boot/boot.janet")
+    def _jnorm(t):
+        return re.sub(r"\s+", " ", t).strip()
+    m = re.search(r"\(defmacro- do-compare\s+\[x y\](.*?)\n\n", boot, re.S)
+    want_do = ("(def f (gensym)) (def f-res (gensym)) (def g (gensym)) (def g-res (gensym)) ~(do (def ,f (,get ,x :compare)) "
+               "(def ,f-res (if ,f (,f ,x ,y))) (if ,f-res ,f-res (do (def ,g (,get ,y :compare)) (def ,g-res (if ,g (,- (,g ,y ,x)))) "
+               "(if ,g-res ,g-res (,cmp ,x ,y))))))")
+    if not m or _jnorm(m.group(1)) != want_do:
+        raise ExtractError("boot.janet do-compare changed: " + (_jnorm(m.group(1))[:200] if m else "not found"))
+    m = re.search(r"\(defmacro- compare-reduce \[op xs\](.*?)\n\n", boot, re.S)
+    want_red = ("~(do (var res true) (var x (get ,xs 0)) (forv i 1 (length ,xs) (let [y (in ,xs i)] (if (,op (do-compare x y) 0) (set x y) "
+                "(do (set res false) (break))))) res))")
+    if not m or _jnorm(m.group(1)) != want_red:
+        raise ExtractError("boot.janet compare-reduce changed: " + (_jnorm(m.group(1))[:200] if m else "not found"))
+    if not re.search(r"\(defn compare\s+``.*?``\s+\[x y\]\s+\(do-compare x y\)\)", boot, re.S):
+        raise ExtractError("boot.janet compare is no longer (do-compare x y)")
+    chains = re.findall(r"\(defn (compare[<>=]+)\s+``.*?``\s+\[& xs\]\s+\(compare-reduce (\S+) xs\)\)", boot, re.S)
+    if sorted(chains) != sorted([("compare<", "<"), ("compare<=", "<="), ("compare=", "="), ("compare>", ">"), ("compare>=", ">=")]):
+        raise ExtractError("boot.janet polymorphic chains changed: %s" % chains)
+    g["polyChains"] = [("compare<", "<"), ("compare<=", "<="), ("compare=", "="), ("compare>", ">"), ("compare>=", ">=")]
+    g["polyChains"] = [c for c in g["polyChains"] if c in chains]
+
     # ---- hand-written floor division / modulo ----------------------------------------------------------
     for fn in ("divf", "divfi", "mod", "modi"):
         body = csrc.func_body(src, "cfun_it_s64_" + fn)
@@ -352,6 +375,8 @@ def render(tree):
     for fn in ("divf", "divfi", "mod", "modi"):
         o.append("abbrev guard%s : Bool := %s" % (fn.capitalize(), str(g[fn + "Guard"]).lower()))
     o.append("")
+    o.append("/-- boot.janet: `(defn compare<op> [& xs] (compare-reduce <op> xs))` (the bodies of do-compare / compare-reduce are shape-asserted) -/")
+    o.append("def polyChains : List (String × String) := [%s]\n" % ", ".join("(%s, %s)" % (_s(a), _s(b)) for a, b in g["polyChains"]))
     o.append("/-- argv index of (op1 = dividend, op2 = divisor) in the hand-written methods -/")
     for fn in ("divf", "divfi", "mod", "modi"):
         o.append("abbrev %sArgs : Nat × Nat := (%d, %d)" % (fn, g[fn + "Args"][0], g[fn + "Args"][1]))
